@@ -5,5 +5,5 @@ DocMode = FALSE
 Vocab <- VocabSmall
 TextKinds <- TK3
 OptSets <- Opts4
-INVARIANTS BuilderSound DesignRefines EmitToks
+INVARIANTS BuilderSound DesignRefines EmitSample
 CHECK_DEADLOCK FALSE
